@@ -76,20 +76,17 @@ theorem setUnits_refused {f : Frame} {us} {e : Err} (h : (setUnits f us).2 = som
   repeat' split at hp
   all_goals (subst hp; simp_all)
 
-/-- write_column refused: the table is unchanged unless the refusal is a cell that the column's type refuses
-    (then the rows before that cell have been written: the loop writes row by row) -/
+/-- write_column refused (wrong length, no / unknown column, out-of-range index, a cell the column's type
+    refuses): the table is unchanged — every cell is converted before the first row is written -/
 theorem writeColumn_refused {f : Frame} {col index name} {e : Err} (h : (writeColumn f col index name).2 = some e) :
-    (writeColumn f col index name).1 = f ∨ ∃ ct ∈ f.cols, ∃ v ∈ col, conv ct.2 v = .error e := by
+    (writeColumn f col index name).1 = f := by
   generalize hp : writeColumn f col index name = p at h ⊢
   unfold writeColumn at hp
   try simp only at hp
   repeat' split at hp
   all_goals subst hp
   all_goals first
-    | (left; rfl)
-    | (right
-       rename_i ct hct
-       obtain ⟨v, hv, hc⟩ := writeColLoop_err h
-       exact ⟨ct, List.mem_of_getElem? hct, v, hv, hc⟩)
+    | rfl
+    | (simp at h; done)
 
 end Nix.Frame
